@@ -206,6 +206,7 @@ class Renderer:
         self.chunk_of = []        # per chunk: ("global"|"def"|"bind", name)
         self.def_lines = {}       # def name -> (first line, last line)
         self.last_assigned = {}   # local name -> rule of the expression last assigned to it (current def)
+        self.local_rules = {}     # (line of the assignment's def, local name) is not needed: line -> {local: rule so far}
 
     def expr_line(self, prefix, e, root_rule_span=None):
         r = R(self.defs)
@@ -234,6 +235,7 @@ class Renderer:
                 out.append(self.expr_line(pad + st["s"] + " = ", st["e"][0]))
                 self.last_assigned[st["s"]] = st["e"][0]["r"]
                 self.line += 1
+                self.local_rules[self.line] = dict(self.last_assigned)
             elif k == "aug":
                 out.append(self.expr_line(pad + st["s"] + " " + st["o"] + " ", st["e"][0]))
                 self.spans[self.line].append((len(pad) + 1, len(out[-1]) + 1, "aug:" + st["o"], "stmt"))
@@ -294,6 +296,26 @@ class Renderer:
 
     def src(self):
         return "\n".join(self.chunks) + "\n"
+
+    def receiver_rule(self, span):
+        """For an error reported at an attribute name (`recv.attr`): the rule that produced the receiver
+        (through a local variable, the rule of the expression last assigned to it)."""
+        mt = re.match(r"^[^:]+:(\d+):(\d+)-(?:(\d+):)?(\d+)$", span or "")
+        if not mt:
+            return None
+        line, c0 = int(mt.group(1)), int(mt.group(2))
+        ents = [e for e in self.spans.get(line, []) if e[1] in (c0 - 1, c0 - 2) and e[3] != "stmt"]
+        if not ents:
+            return None
+        ents.sort(key=lambda e: e[0])
+        rule = ents[0][2]
+        if rule == "var":
+            src = self.src().splitlines()[line - 1]
+            name = src[ents[0][0] - 1:ents[0][1] - 1]
+            known = [v for ln, v in sorted(self.local_rules.items()) if ln <= line]
+            if known and name in known[-1]:
+                return known[-1][name]
+        return rule
 
     def rule_at(self, span):
         """span: 'm.star:L:C-C' or 'm.star:L:C-L2:C2' -> (rule, def name or None)"""
@@ -605,6 +627,20 @@ RUNTIME_TYPE_PAT = re.compile(r"does not match the type annotation|Type of param
                               r"|Type of parameters mismatch|unhashable", re.I)
 
 
+def cause_of(rd, span, msg, line_text):
+    """What a false error goes back to, where the message and the flagged place tell:
+    `on_type` / `receiver_rule`: an attribute refused on a receiver of that checker type, produced by that rule;
+    `never_element`: a tuple display, indexed, with an element that cannot produce a value (`{}[k]`, `[].pop()`)."""
+    out = {}
+    m = re.search(r"attribute `[^`]*` is not available on the type `([^`]*)`", msg)
+    if m:
+        out["on_type"] = m.group(1)
+        out["receiver_rule"] = rd.receiver_rule(span)
+    if "Expected type" in msg and re.search(r"\{\}\[|\[\]\.pop\(|\[\]\[|\{\}\.pop\(", line_text or ""):
+        out["never_element"] = True
+    return out
+
+
 def got_of(msg):
     m = re.search(r"but got `([^`]*)`", msg)
     return m.group(1) if m else ""
@@ -710,7 +746,8 @@ class Judge:
             if rule == "unknown":
                 rule = err_rule(e["msg"])
             self.n["false_error"] += 1
-            self.v.disagree({"kind": "false_error", "mode": "lint", "rule": rule, "got": got_of(e["msg"]), "msg": e["msg"]},
+            self.v.disagree(dict({"kind": "false_error", "mode": "lint", "rule": rule, "got": got_of(e["msg"]), "msg": e["msg"]},
+                                 **cause_of(rd, e["span"], e["msg"], line_of(case["src"], e["span"]))),
                             {"case": slim(case), "error": e, "in_def": dname,
                              "line": line_of(case["src"], e["span"])})
         if tc["approx"]:
@@ -718,11 +755,14 @@ class Judge:
         # evaluation
         ev = o.get("eval", {})
         evs = o.get("eval_static", {})
-        for key, e in (("eval", ev), ("eval_static", evs)):
-            if "panic" in e:
-                self.n["crash"] += 1
-                self.v.disagree({"kind": "panic", "family": "generated", "where": key},
-                                {"case": slim(case), "panic": e["panic"]})
+        # a panic while EVALUATING the module is the evaluator's (C07); here it counts only when the
+        # evaluation with the compile-time checker panics and the plain one does not
+        if "panic" in ev:
+            self.n["eval_panics_not_the_checkers"] = self.n.get("eval_panics_not_the_checkers", 0) + 1
+        elif "panic" in evs:
+            self.n["crash"] += 1
+            self.v.disagree({"kind": "panic", "family": "generated", "where": "eval_static"},
+                            {"case": slim(case), "panic": evs["panic"]})
         plain_failed = {f["chunk"] for f in ev.get("fails", [])}
         for f in ev.get("fails", []):
             self.n["eval_chunk_failures"] += 1
@@ -743,16 +783,19 @@ class Judge:
             msg = re.sub(r"^\S+ ", "", f["err"])
             what, name = rd.chunk_of[f["chunk"]]
             rule = err_rule(msg)
+            cause = {}
             if what == "def":
                 # map the span (relative to the chunk) back through the def's first line
                 mt = re.match(r"^([^:]+):(\d+):(.*)$", f["err"].split(" ")[0])
                 if mt:
                     first = rd.def_lines[name][0]
-                    r2, _ = rd.rule_at("%s:%d:%s" % (mt.group(1), int(mt.group(2)) + first - 1, mt.group(3)))
+                    gspan = "%s:%d:%s" % (mt.group(1), int(mt.group(2)) + first - 1, mt.group(3))
+                    r2, _ = rd.rule_at(gspan)
                     if r2 != "unknown":
                         rule = r2
+                    cause = cause_of(rd, gspan, msg, line_of(case["src"], gspan))
             self.n["false_error"] += 1
-            self.v.disagree({"kind": "false_error", "mode": "compiler", "rule": rule, "got": got_of(msg), "msg": msg},
+            self.v.disagree(dict({"kind": "false_error", "mode": "compiler", "rule": rule, "got": got_of(msg), "msg": msg}, **cause),
                             {"case": slim(case), "chunk": case["chunks"][f["chunk"]], "error": f["err"]})
         if tc["approx"] or tc["errors"]:
             # the checker did not accept the module (or flagged an approximation): nothing is committed
